@@ -11,6 +11,7 @@ package vrt
 
 import (
 	"fmt"
+	"os"
 	"runtime/debug"
 	"sort"
 	"strings"
@@ -40,7 +41,12 @@ type Config struct {
 	LegacyTimers bool  // pre-Go1.23 timer channel semantics (asynctimerchan=1)
 	Race         bool  // vector-clock race detection on instrumented accesses
 	Trace        bool  // record every transition (for replay files)
-	Chooser      Chooser
+	// SymmetricRendezvous makes an unbuffered hand-over a transition of its own, after which
+	// receiver and sender resume as two separate transitions in either order (the receiver first
+	// by default). Without it the receiver continues atomically, which is only equivalent for
+	// code whose post-rendezvous accesses are race-free.
+	SymmetricRendezvous bool
+	Chooser             Chooser
 }
 
 // Chooser decides at every scheduling point with more than one enabled
@@ -222,12 +228,17 @@ type Exec struct {
 	stopReq bool
 	siteH   map[string]uint64
 	// user data for the world
-	World     any
-	tbuf      []transition
-	clockHash uint64
+	World          any
+	tbuf           []transition
+	clockHash      uint64
+	rendezvousOnly bool
 }
 
 var cur *Exec
+
+// AsymmetricRendezvous switches the symmetric treatment of unbuffered hand-overs off
+// (VERIF_ASYMMETRIC=1; only for measuring its cost).
+var AsymmetricRendezvous = os.Getenv("VERIF_ASYMMETRIC") == "1"
 
 // Cur returns the active execution or nil.
 func Cur() *Exec { return cur }
@@ -295,6 +306,10 @@ func Run(cfg Config, main func()) *Exec {
 	}
 	if cfg.MaxSteps == 0 {
 		cfg.MaxSteps = 200000
+	}
+	if cfg.Chooser != nil && !AsymmetricRendezvous {
+		// schedule exploration: explore both orders of the code after a hand-over
+		cfg.SymmetricRendezvous = true
 	}
 	e := &Exec{
 		cfg:     cfg,
@@ -717,7 +732,13 @@ func (e *Exec) perform(t transition) *G {
 		e.touch(g, o.site, o.release, o.objs)
 		e.record(g, o.name, o.site)
 	case opSelect:
+		e.rendezvousOnly = false
 		e.performSelect(t)
+		if e.rendezvousOnly {
+			e.rendezvousOnly = false
+			e.last = g
+			return nil
+		}
 	}
 	g.op = nil
 	return g
